@@ -59,6 +59,9 @@ S = {
  "C03_1": ("C03", "tracer.rs apply_new_status: a temporary step breakpoint stops any thread (ownership test `pid == brkpt.pid` dropped)", "a second thread passing the planted address during `next`/`finish`", None, ""),
  "C03_2": ("C03", "die_ref.rs inline_ranges: for_each_children instead of for_each_children_recursive", "an #[inline(always)] callee called inside a nested lexical block, then `next`", None, ""),
  "C03_3": ("C03", "mod.rs stepi: ecx_restore_frame() dropped", "stop at a breakpoint, select frame 1, stepi", None, ""),
+ "C09_1": ("C09", "tracer.rs apply_new_status CLONE arm: a new thread that is already registered (and running again) is marked stopped", "a non-main thread spawning while the tracer handles another event", None, ""),
+ "C09_2": ("C09", "tracer.rs Tracer::resume: the re-stop before reporting the next queued signal is skipped for quiet signals", "two signals queued at once, the second one quiet", None, ""),
+ "C09_3": ("C09", "tracer.rs single_step: the `pc == initial_pc` re-step removed", "a breakpoint exactly on a rep-prefixed instruction with a count above 1", None, ""),
 }
 def main():
     res = {}
